@@ -109,6 +109,9 @@ def strategy():
             n = draw(st.sampled_from([0, 1, 5, 40]))
             if steer in ("ds", "both") and draw(st.booleans()):
                 n = near(draw, eff_ds)
+                if draw(st.sampled_from([False, False, True])):
+                    # far above the data-source limit, around / above the message limit as well
+                    n = min(1100000, draw(st.sampled_from([2 * eff_ds, eff_ds + 1000, near(draw, eff_log), eff_log + 700, 2 * eff_log])))
             vals[v] = draw(gen.text_bytes(n, n)) if n <= 64 else (b"e" * n)
         if target == "path":
             vals = {k: v.replace(b"/", b"_") for k, v in vals.items()}
